@@ -393,9 +393,9 @@ func (kc *KeyConditionImpl) checkRangeRightBound(
 	}
 	res = res.Or(mark)
 	if res.isComplete() {
-		return mark, true, nil
+		return res, true, nil
 	}
-	return mark, false, nil
+	return res, false, nil
 }
 
 // MayBeInRange is used to check whether the condition is likely to be in the target range.
